@@ -81,6 +81,12 @@ std::vector<i64> S_set(int w, int r, bool with_nan, bool with_int_min)
       for( int d = -r; d <= r; ++d ) { add(base + d); add(-base + d); }
       }
   for( i64 a : anchors() ) for( int d = -r; d <= r; ++d ) add(static_cast<i128>(a) + d);
+  // "rich" members: many significant bits spread over the whole word (alternating / nibble / byte patterns and
+  // 53-bit mantissas of irrational constants) at every magnitude, both signs. They complement the few-bit shapes above.
+  if( w >= 3 )
+    for( u64 pat : { 0x5555555555555555ull, 0x3333333333333333ull, 0x0f0f0f0f0f0f0f0full, 0x00ff00ff00ff00ffull, 0x6db6db6db6db6db6ull,
+                     0x6487ed5110b4611aull /* pi */, 0x5a827999fcef3242ull /* sqrt 2 */, 0x4f1bbcdcbfa53e0aull /* golden ratio */ } )
+      for( int sh = 0; sh <= 62; sh += (w >= 6 ? 1 : 3) ) { i128 v = static_cast<i128>(pat >> sh); add(v); add(-v); }
   if( with_nan ) { out.push_back(FX_NAN); out.push_back(-FX_NAN); }
   if( with_int_min ) out.push_back(INT64_MIN);
   std::sort(out.begin(), out.end());
